@@ -327,6 +327,18 @@ class State:
     # -------------------------------------------------------------- memory
     def read(self, loc):
         root, proj = loc
+        if root[0] == "PR" and loc not in self.mem:
+            base = PROMOTED_VALUES.get(root)
+            if base is not None and not (isinstance(base, tuple) and base[0] == "deref-of"):
+                return project(base, proj) if proj else base
+        if root[0] == "V" and not proj:
+            # a slice view created by indexing with a range: describe it by what it is a view of
+            of = self.mem.get((root, (("of",),)))
+            if isinstance(of, tuple) and of[0] == "ref":
+                under = self.read(of[1])
+                st = self.mem.get((root, (("start",),)), ("k", "usize", 0))
+                ln = self.mem.get((root, (("len",),)))
+                return ("model", "view", under, st, ln)
         v = self.mem.get(loc)
         if v is None:
             found = False
@@ -788,6 +800,7 @@ class State:
         return None
 
 
+PROMOTED_VALUES = {}   # ("PR", promoted body key) -> value SV of the promoted constant
 WRITE_LOG = None   # set of written pointee locations while an Interp runs (write-set summaries)
 DISCR_RANGE = {}   # adt key -> (lo, hi) of discriminants
 DISCR_OF = {}      # (adt key, variant index) -> discriminant value
@@ -983,6 +996,15 @@ def join_sv(a, b, block, loc, A, B, out):
         for i, (x, y) in enumerate(zip(a[3], b[3])):
             fields.append(join_sv(x, y, block, (loc[0], loc[1] + (("f", i, str(i)),)), A, B, out))
         return ("agg", a[1], a[2], tuple(fields))
+    # array-with(X, items): X with some elements possibly overwritten by the listed values (a weak description)
+    def aw(v):
+        if isinstance(v, tuple) and v[0] == "model" and v[1] == "array-with":
+            return v[2], v[3]
+        return v, ()
+    (xa, ia), (xb, ib) = aw(a), aw(b)
+    if (ia or ib) and xa == xb:
+        items = ia + tuple(x for x in ib if x not in ia)
+        return ("model", "array-with", xa, items[:4])
     ka, va = _variants_of(a)
     kb, vb = _variants_of(b)
     if ka is not None and ka == kb:
